@@ -8,6 +8,7 @@
  *   u        one descriptor-taking call on x (as file descriptor or as directory handle)
  */
 #define _GNU_SOURCE 1
+#include <errno.h>
 #include <fcntl.h>
 #include <stdlib.h>
 #include <string.h>
@@ -125,6 +126,7 @@ static void run(char* history) {
         int nf = hx_split(ops[i], ',', f, 6);
         U32 e;
         const char* name = f[0];
+        errno = EXDEV;      /* environment: errno holds an unrelated stale value when a WASI call begins; no result may depend on it */
         fprintf(hx_out, "INFO step %d begins\n", i); fflush(hx_out);
         if (!strcmp(f[0], "of") && nf == 2) {
             int ns = atoi(f[1]);
